@@ -260,6 +260,7 @@ static void c05_nv_full(World *w, Buf *b) {
 /* cancellation: the cancel request lands at poll k of an RSA key generation */
 static void c05_cancel(World *w, Buf *b, int k) {
     uint8_t uq[2] = {(uint8_t)k, 7};
+    w_enable_hierarchies(w, b);   /* the key is made in the owner hierarchy */
     Buf t = {0};
     b_u16(&t, ALG_RSA); b_u16(&t, ALG_SHA256); b_u32(&t, 0x00040472u); b_u16(&t, 0);
     b_u16(&t, ALG_NULL); b_u16(&t, ALG_RSASSA); b_u16(&t, ALG_SHA256); b_u16(&t, 2048); b_u32(&t, 0); b_2b(&t, uq, 2);
